@@ -68,6 +68,10 @@ def build(rng, facts, name):
             b.kmerge("c", "sd"); b.kmerge(fresh, "sd")
         # history after Clear on the cleared sketch and on its fresh twin: narrower / earlier ranges
         history(rng, b, ["c", fresh], spec, rng.randint(2, 20), rng.choice([-1, 0, -2]), rng.choice([0, 1, 2]))
+        if exact and rng.random() < 0.3:          # ... and the exact sum leaves the float range again after Clear: the same infinity as on a new sketch
+            big = facts[spec]["max"] * 0.5; sg = rng.choice((1, -1))
+            if big > 1e290:
+                for r in ("c", fresh): b.kadd(r, sg * big, 16.0); b.kadd(r, sg * big * 0.5, 64.0); b.kadd(r, sg * 3.0)          # small dyadic weights: the bins stay exact
         if cc:
             history(rng, b, [cc, fcc], spec, rng.randint(1, 8), lo2, hi2)
             j2 = b.emit("kobs " + fcc); b.emit("kobs " + cc, ("same", j2))
